@@ -52,7 +52,7 @@ func (c04) ID() string { return "C04" }
 
 func (c04) Plan(tier string) core.Plan {
 	if tier == "thorough" {
-		return core.Plan{Systematic: c04SysN, Seeded: 4000000}
+		return core.Plan{Systematic: c04SysN + 1, Seeded: 4000000} // + one stream crossing 2^32 bytes
 	}
 	return core.Plan{Systematic: c04SysN, Seeded: 400000}
 }
@@ -65,13 +65,13 @@ const c04SysN = 3*261 + 1 // + one stream crossing 2^29 bytes (bit length 2^32)
 func (c04) Meta() core.Meta {
 	return core.Meta{
 		Level: "exploration",
-		Rule: "systematic: every message length 0..260 x {one Write, byte-by-byte Writes, io.Copy through a 7-byte-chunk pipe}; seeded: histories of <=40 ops, 1 in 250 with 200-1200 ops and up to 128 KiB, 1 in 5 on two hash values used alternately (write, pump through io.Copy/io.CopyBuffer/io.MultiWriter/hand loop over a short-reading stalling pipe, Sum with prefix len/cap, double Sum, Reset, zero-length write) over messages 0..4096 bytes (long runs: 128 KiB) with chunk sizes biased to leave the block buffer at 0,1,55,56,63 and to straddle 64/128. " +
+		Rule: "systematic: every message length 0..260 x {one Write, byte-by-byte Writes, io.Copy through a 7-byte-chunk pipe}, one stream of 2^29+5 bytes (bit count crosses 2^32) and, thorough tier only, one of 2^32+9 bytes (byte count crosses 2^32) with Sum taken on both sides of each boundary; seeded: histories of <=40 ops, 1 in 250 with 200-1200 ops and up to 128 KiB, 1 in 1500 with single Write calls of 1-3 MiB (mostly with 1..63 bytes pending from earlier writes), 1 in 5 on two hash values used alternately (write, pump through io.Copy/io.CopyBuffer/io.MultiWriter/hand loop over a short-reading stalling pipe, Sum with prefix len/cap, double Sum, Reset, zero-length write) over messages 0..4096 bytes (long runs: 128 KiB) with chunk sizes biased to leave the block buffer at 0,1,55,56,63 and to straddle 64/128. " +
 			"non-trivial = a pipe fault fired, a peek/reset happened mid-stream, or a write straddled a block boundary; distinct = distinct (op-kind sequence, buffer-fill classes at each Sum, pump kinds, faults fired)",
 		Components: map[string]string{"sm3.New/Write/Sum/Reset/SumSM3": "real", "io.Copy/io.CopyBuffer/io.MultiWriter": "real (stdlib consumers of Write's return value)",
 			"byte source": "stub (simulated pipe)", "oracle": "sm3ref (GB/T 32905 transcribed; anchored on A.1/A.2)"},
 		Assumptions: []string{"sm3ref is correct (anchors: GB/T 32905 A.1, A.2; the GM/T 0003.5 ZA/e values)"},
 		FaultKinds:  []string{"short-read", "stall", "eof-with-data", "peek", "double-peek", "reset-midstream", "zero-write", "prefix-spare-capacity", "two-hash-values"},
-		ProbeNames:  []string{"fill=55", "fill=56", "fill=63", "fill=0-after-data", "straddle", "len>=2blocks", "len>=2^29"},
+		ProbeNames:  []string{"fill=55", "fill=56", "fill=63", "fill=0-after-data", "straddle", "len>=2blocks", "len>=2^29", "write>=1MiB-with-bytes-pending"},
 		StepUnit:    "hash ops + pipe reads",
 	}
 }
@@ -89,6 +89,9 @@ func c04Chunk(r *core.Rand) int {
 func (c04) Generate(idx int, r *core.Rand, tier string) core.Script {
 	if idx == c04SysN-1 {
 		return &c04Script{MsgSeed: 0x61a27, Giant: 1<<29 + 5}
+	}
+	if tier == "thorough" && idx == c04SysN {
+		return &c04Script{MsgSeed: 0x61a28, Giant: 1<<32 + 9} // the byte count itself crosses 2^32
 	}
 	if idx < c04SysN {
 		l := idx % 261
@@ -124,6 +127,10 @@ func (c04) Generate(idx int, r *core.Rand, tier string) core.Script {
 		nops = w.Range(200, 1200)
 		limit = 1 << 17
 	}
+	huge := false
+	if w.Chance(1, 1500) { // single Write calls of a megabyte and more, mostly with bytes pending from earlier calls
+		huge, nops, limit = true, w.Range(2, 9), 9<<20
+	}
 	total := 0
 	for i := 0; i < nops && total < limit; i++ {
 		switch {
@@ -157,6 +164,9 @@ func (c04) Generate(idx int, r *core.Rand, tier string) core.Script {
 			n := c04Chunk(w)
 			if limit > 4096 && w.Chance(1, 10) {
 				n = w.PickInt(1000, 4096, 5000, 16384, 20000)
+			}
+			if huge && w.Chance(1, 2) {
+				n = w.PickInt(1<<20-1, 1<<20, 1<<20+1, 1<<20+64, 1<<20+c04Chunk(w), 1<<21, 1<<21+777, 3<<20+5, 1<<16+3, 1<<18)
 			}
 			if total+n > limit {
 				n = limit - total
@@ -279,6 +289,12 @@ func (c04) Execute(sc core.Script, keep bool) *core.Result {
 				if before+len(b) > 64 && before != 0 {
 					res.Probes["straddle"]++
 					res.Nontrivial = true
+				}
+				if len(b) >= 1<<20 {
+					res.Probes["write>=1MiB"]++
+					if before != 0 {
+						res.Probes["write>=1MiB-with-bytes-pending"]++
+					}
 				}
 				log.Add("write %d -> n=%d err=%v", len(b), n, err)
 				if err != nil {
@@ -544,16 +560,23 @@ func c04Giant(s *c04Script, res *core.Result, log *core.Log) {
 	res.Nontrivial = true
 	res.Fingerprint = "giant-stream"
 	res.Probes["len>=2^29"]++
+	if s.Giant >= 1<<32 {
+		res.Fingerprint = "giant-stream>=2^32"
+		res.Probes["len>=2^32"]++
+	}
 	p, txt, _, _ := core.Catch(func() {
 		h := sm3.New()
 		st := ref.NewSM3Stream()
 		r := core.NewRand(s.MsgSeed)
 		chunk := make([]byte, 1<<20)
-		marks := []int{1<<29 - 1, 1<<29 + 5, s.Giant}
+		marks := []int{1<<29 - 1, 1<<29 + 5, 1<<32 - 1, 1<<32 + 1, s.Giant}
 		done := 0
 		for _, m := range marks {
 			if m > s.Giant {
 				m = s.Giant
+			}
+			if m <= done && done > 0 {
+				continue
 			}
 			for done < m {
 				n := m - done
